@@ -467,7 +467,7 @@ func TestVerifC12(t *testing.T) {
 		out.Emit(op, res)
 		return res
 	}
-	cases := vh.Budget(28, 700)
+	cases := vh.Budget(22, 800)
 	for c := 0; c < cases; c++ {
 		cv := protocol.ConsensusFuture
 		if g.r.Chance(25) {
